@@ -342,7 +342,7 @@ def _retarget(name: str, a: str, b_: str) -> str:
 
 
 def acked_count(cr: dict) -> int:
-    return len(cr['acks'])
+    return cr['acked']
 
 
 def durability_failures(res: dict, cr: dict) -> list[tuple[str, str, dict]]:
@@ -482,3 +482,25 @@ def determinism_ok(res: dict, cr: dict) -> bool:
         if x[0] != y[0] or x[1] != y[1]:
             return False
     return True
+
+
+def canon_dump(d: dict) -> dict:
+    """What two dumps of the same state must agree on."""
+    return {'list': sorted(d['list']), 'lsub': sorted(d['lsub']), 'lsub_status': d.get('lsub_status'),
+            'errors': sorted((e['folder'], e['status']) for e in d['errors']),
+            'folders': {n: (f['validity'], f['uidnext'],
+                            [(m['uid'], m['flags'], m['body']) for m in f['msgs']])
+                        for n, f in d['folders'].items()}}
+
+
+def kill_matches_copy(res: dict, kill: dict) -> bool:
+    """A real kill at k leaves the same state as the copy taken at k."""
+    snap = [c for c in res['crashes'] if c['k'] == kill['k']]
+    if not snap:
+        return True
+    s = snap[0]
+    return (canon_dump(s['dump_raw']) == canon_dump(kill['dump_raw'])
+            and s['acked'] == kill['acked'] and s['locks'] == kill['locks']
+            and ('dump_aged' in s) == ('dump_aged' in kill)
+            and ('dump_aged' not in s
+                 or canon_dump(s['dump_aged']) == canon_dump(kill['dump_aged'])))
